@@ -216,6 +216,7 @@ type c36Result struct {
 	typ, limiter string
 	allowed      bool
 	cachedBefore string
+	reused       bool // the cached limiter was handed back untouched (no rule evaluation updated it)
 	burst        int
 }
 
@@ -328,22 +329,27 @@ func (s *c36Sys) apply(ev c36Event) *c36Result {
 	return nil
 }
 
-func (s *c36Sys) cachedType() string {
+// cached returns type and updatedAt of the limiter the pool holds for the address ("none" if there is none).
+func (s *c36Sys) cached() (string, int64) {
 	m, found := s.h.pool.l.Value(s.addr.String())
 	if !found || m == nil {
-		return "none"
+		return "none", 0
 	}
 
 	l, found := m.Value(c36Handler)
 	if !found || l == nil {
-		return "none"
+		return "none", 0
 	}
 
-	return l.Type()
+	return l.Type(), l.UpdatedAt()
 }
 
 func (s *c36Sys) request(cid string) *c36Result {
-	res := &c36Result{cachedBefore: s.cachedType()}
+	res := &c36Result{}
+
+	var stampBefore int64
+
+	res.cachedBefore, stampBefore = s.cached()
 
 	ctx := context.WithValue(context.Background(), RateLimiterLimiterNameContextKey, c36Handler)
 	if cid != "-" {
@@ -365,6 +371,10 @@ func (s *c36Sys) request(cid string) *c36Result {
 
 	rr := f()
 	res.typ, res.limiter, res.allowed = rr.RulesetType, rr.Limiter, rr.Allowed
+
+	if _, stampAfter := s.cached(); res.cachedBefore != "none" && stampAfter == stampBefore {
+		res.reused = true
+	}
 
 	if res.allowed != called || res.allowed != (err == nil) {
 		panic(fmt.Sprintf("inconsistent result: allowed=%v handler called=%v err=%v", res.allowed, called, err))
@@ -543,12 +553,14 @@ func c36RunHistory(r *vlib.Run, env *c36Env, cfg c36Cfg, an, prefix string, hist
 	}
 
 	if res.typ != wtyp || res.limiter != wlim {
-		r.Outcome("precedence-mismatch/cached=" + res.cachedBefore + "/want=" + wtyp + "/got=" + res.typ)
+		class := c36PrecedenceClass(res, wtyp)
+
+		r.Outcome("precedence-mismatch/" + class + "/want=" + wtyp + "/got=" + res.typ)
 		r.Violation(id, map[string]any{
-			"kind": "precedence", "cached": res.cachedBefore, "want": wtyp, "got": res.typ,
-			"same_type_other_rule": res.typ == wtyp,
-		}, fmt.Sprintf("%s: request (addr %s, node %q, client id %q) was served by rule set %q limiter %s; the precedence rule on the current rules gives %q limiter %s (rule %s); cached limiter before the request: %s",
-			id, addr, s.m.node, ev.arg, res.typ, res.limiter, wtyp, wlim, wrule, res.cachedBefore),
+			"kind": "precedence", "class": class, "reused_cached": res.reused,
+			"cached": res.cachedBefore, "want": wtyp, "got": res.typ, "same_type_other_rule": res.typ == wtyp,
+		}, fmt.Sprintf("%s: request (addr %s, node %q, client id %q) was served by rule set %q limiter %s; the precedence rule on the current rules gives %q limiter %s (rule %s); cached limiter before the request: %s, handed back without evaluating the rules: %v",
+			id, addr, s.m.node, ev.arg, res.typ, res.limiter, wtyp, wlim, wrule, res.cachedBefore, res.reused),
 			map[string]any{"case": id})
 
 		return
@@ -572,6 +584,27 @@ func c36RunHistory(r *vlib.Run, env *c36Env, cfg c36Cfg, an, prefix string, hist
 		if res.cachedBefore != "none" && res.cachedBefore != wtyp {
 			r.Sample(map[string]any{"history": id, "served_by": lid, "allowed": res.allowed, "cached_before": res.cachedBefore})
 		}
+	}
+}
+
+// c36PrecedenceClass names the structural cause of a precedence mismatch.
+// "cached-*": the limiter cached for the address was handed back untouched
+// (its updatedAt did not move), i.e. the rules were not evaluated for this
+// request; everything else is a wrong result of an actual rule evaluation.
+func c36PrecedenceClass(res *c36Result, want string) string {
+	if !res.reused {
+		return "evaluated-wrong-rule"
+	}
+
+	switch c := res.cachedBefore; {
+	case c == "clientid":
+		return "cached-clientid-serves-other-clientid"
+	case c == "net" && want == "clientid":
+		return "cached-net-hides-clientid"
+	case (c == "node" || c == "suffrage") && want == "clientid":
+		return "cached-node-or-suffrage-hides-clientid"
+	default:
+		return "cached-" + c + "-hides-" + want
 	}
 }
 
